@@ -1,5 +1,6 @@
 import BpModel.All
 import BpProofs.Load
+import BpProofs.Typed
 /-
   C17 — malformed or truncated input is rejected or isolated, never mis-decoded.
   (Model of the decoder after the D09/D11/D21 repairs.)
@@ -106,5 +107,102 @@ example : (parse T 0 [0x13, 0x10, 0x05, 0x14]).isOk = false := by decide        
 example : (parse T 0 [0x10, 0x05, 0x80]).isOk = false := by decide                  -- tag cut inside its varint
 example : (parse T 0 [0x12, 0x02, 0x01, 0x02]).bind (dumpVal T) = .ok [0x12, 0x02, 0x01, 0x02] := by decide  -- LEN on a singular int32: kept as unknown
 example : (parse T 0 [0x28, 0x07]).bind (dumpVal T) = .ok [0x28, 0x07] := by decide   -- varint on a bytes field: kept as unknown
+
+/-! ### "… or returns a message in which every field holds a value of its declared Python
+    type and which can be encoded again"
+
+  Definitions (all Bool-valued, kernel-evaluable): BpModel/Typed.lean — `slotTypedB`,
+  `msgTypedB`, `wfSchemaTB`.  `PyTyped S f v` / `MsgTyped S m` are the *Python type* reading
+  (`int` for every integer and enum type whatever its magnitude, `bool`, `float`, valid-UTF-8
+  `str`, `bytes`, `datetime`, `timedelta`, the wrapped scalar or `None` for wrapper fields,
+  an instance of the declared class with typed slots, `list` / `dict` of these; PLACEHOLDER
+  anywhere, `None` only where the dataclass default is `None`); `MsgEnc S m` adds that every
+  leaf lies in the encoder's domain.  Proofs: BpProofs/Typed.lean (induction on the fuel of
+  `loadInto` with the fold-state invariant `StTyped`; the encoder is total on `MsgEnc`).
+
+  `WfSchemaT S` is a condition on the schema only (`wfFieldB`): a repeated field is not
+  `optional`; a plain message field / message-valued map names an existing class; a
+  wrapper wraps a scalar type; map keys are scalars and map values are not maps.  The
+  plugin cannot emit anything else (proto3 `optional` is singular; `wraps` comes from the
+  wrapper table; protoc restricts map key / value types; a dangling class reference does
+  not import). -/
+
+/-- **C17, "returns a message in which every field holds a value of its declared Python
+    type"**: for every input — any list of numbers, bytes or not — whatever `parse` returns
+    is a typed message: its class exists, it has one slot per field and one selection cell
+    per oneof group, every slot is `PyTyped` (`msgTyped_iff`), recursively -/
+theorem ok_welltyped (S : Schema) (hS : WfSchemaT S) (c : Nat) (bs : Bytes) (m : Val)
+    (h : parse S c bs = .ok m) : MsgTyped S m := parse_msgTyped S hS c bs m h
+
+/-- the same with every leaf in the encoder's domain, for an input made of bytes
+    (`WfBytes bs`: every element < 256 — the model's `Bytes` are `List Nat`) -/
+theorem ok_encodable (S : Schema) (hS : WfSchemaT S) (c : Nat) (bs : Bytes) (hb : WfBytes bs) (m : Val)
+    (h : parse S c bs = .ok m) : MsgEnc S m := parse_msgEnc S hS c bs m hb h
+
+/-- **C17, "and which can be encoded again"**: for every byte string, whatever `parse`
+    returns is accepted by the encoder.  (The hypothesis `WfBytes bs` only excludes lists
+    that are not byte strings; see `reencode_needs_bytes` below.) -/
+theorem ok_reencodes (S : Schema) (hS : WfSchemaT S) (c : Nat) (bs : Bytes) (hb : WfBytes bs) (m : Val)
+    (h : parse S c bs = .ok m) : ∃ bs', dumpVal S m = .ok bs' := parse_reencodes S hS c bs m hb h
+
+/-- every typed message of the encoder's domain can be encoded, decoded or not -/
+theorem encodable_dumps (S : Schema) (hS : WfSchemaT S) (m : Val) (h : MsgEnc S m) :
+    ∃ bs', dumpVal S m = .ok bs' := dumpVal_total S hS m h
+
+/-- the encoder's domain is part of the Python typing -/
+theorem encodable_typed (S : Schema) (m : Val) (h : MsgEnc S m) : MsgTyped S m := msgTyped_weaken S m h
+
+/-! non-vacuity: nested / repeated / map / oneof / wrapper / Timestamp / optional fields -/
+def X : Schema := [
+  { fields := [
+      { name := "i", num := 1, ty := .int32 },
+      { name := "sub", num := 2, ty := .message, kind := .user 1 },
+      { name := "subs", num := 3, ty := .message, kind := .user 1, repeated := true },
+      { name := "m", num := 4, ty := .map, mapK := .string, mapV := .message, mapVKind := .user 1 },
+      { name := "a", num := 5, ty := .string, group := some 0 },
+      { name := "b", num := 6, ty := .message, kind := .user 1, group := some 0 },
+      { name := "w", num := 7, ty := .message, kind := .user 0, wraps := some .int32 },
+      { name := "t", num := 8, ty := .message, kind := .timestamp },
+      { name := "fl", num := 9, ty := .float, repeated := true },
+      { name := "o", num := 10, ty := .uint32, optional := true } ], nGroups := 1 },
+  { fields := [
+      { name := "x", num := 1, ty := .sint64 },
+      { name := "s", num := 2, ty := .string, repeated := true },
+      { name := "self", num := 3, ty := .message, kind := .user 1, optional := true } ] } ]
+
+example : WfSchemaT X := by decide
+
+/-- i = 150; sub = {x = -2}; subs = [{}, {s = ["hi"]}]; m = {"k": {x = -1}}; b = {} (oneof);
+    w = 7; t = 1 s past the epoch; fl = [1.0] (packed); o = 2^34 - 1 (a 34-bit varint on a
+    `uint32` field: the decoder does not truncate, the Python type is still `int`) -/
+def accepted : Bytes :=
+  [0x08, 0x96, 0x01,  0x12, 0x02, 0x08, 0x03,  0x1a, 0x00,  0x1a, 0x04, 0x12, 0x02, 0x68, 0x69,
+   0x22, 0x07, 0x0a, 0x01, 0x6b, 0x12, 0x02, 0x08, 0x01,  0x32, 0x00,  0x3a, 0x02, 0x08, 0x07,
+   0x42, 0x02, 0x08, 0x01,  0x4a, 0x04, 0x00, 0x00, 0x80, 0x3f,  0x50, 0xff, 0xff, 0xff, 0xff, 0x3f]
+
+example : WfBytes accepted := by decide
+example : (parse X 0 accepted).isOk = true := by decide
+example : ((parse X 0 accepted).bind fun m => .ok (msgTypedB false X m, msgTypedB true X m)) = .ok (true, true) := by
+  decide
+example : (parse X 0 accepted).bind (dumpVal X) = .ok accepted := by decide +kernel
+/-- the `uint32` slot holds 34 bits -/
+example : ((parse X 0 [0x50, 0xff, 0xff, 0xff, 0xff, 0x3f]).bind fun m =>
+    match m with
+    | .msg _ sl _ _ _ => (match sl.getD 9 .ph with | .int i => .ok i | _ => .error .type)
+    | _ => .error .type) = .ok 17179869183 := by decide
+/-- the typing is not trivial: a `str` in an `int32` slot, a bare element in a repeated
+    slot, an instance of the wrong class are rejected -/
+example : slotTypedB false X { num := 1, ty := .int32 } (.str []) = false := by decide
+example : slotTypedB false X { num := 9, ty := .float, repeated := true } (.f32 0) = false := by decide
+example : slotTypedB false X { num := 2, ty := .message, kind := .user 1 } (fresh X 0) = false := by decide
+example : slotTypedB false X { num := 2, ty := .message, kind := .user 1 } (fresh X 1) = true := by decide
+
+/-- why `ok_reencodes` asks for a *byte* string: a list with an element ≥ 256 is decoded
+    to a float32 pattern of more than 32 bits, which `struct.pack` (the model's `packFixed`)
+    rejects.  An artefact of modelling bytes as `List Nat`, not a behaviour of the code:
+    no such input exists in Python.  The result is still `MsgTyped`. -/
+theorem reencode_needs_bytes :
+    (parse X 0 [0x4d, 4294967296, 0, 0, 0]).isOk = true
+    ∧ (parse X 0 [0x4d, 4294967296, 0, 0, 0]).bind (dumpVal X) = .error .struct := by decide
 
 end Bp.C17
